@@ -260,6 +260,9 @@ func Base() (map[string]*pbfgen.File, []string) {
 func Params() *pbfgen.File {
 	y, _ := Base()
 	f := &pbfgen.File{Header: pbfgen.StdHeader()}
+	// the optional features real planet files declare (what they promise about the file must
+	// not turn into a shortcut that changes what a scan returns)
+	f.Header.Optional = append(f.Header.Optional, "Sort.Type_then_ID", "Has_Metadata")
 	blocks := append(append([]pbfgen.Block{}, threeBlocks().Blocks...), y["Y-one-block-mixed"].Blocks[0])
 	grans := []int32{1000, 10, 100000, 7}
 	dates := []int32{2000, 500, 60000, 1}
@@ -297,6 +300,7 @@ func Grouped(nb int) *pbfgen.File {
 	ntags := [8]int{3, 0, 1, 2, 0, 2, 0, 1}
 	nkids := [8]int{4, 0, 2, 1, 0, 3, 1, 5}
 	f := &pbfgen.File{Header: pbfgen.StdHeader()}
+	f.Header.Optional = append(f.Header.Optional, "Sort.Type_then_ID", "Has_Metadata")
 	for b := 0; b < nb; b++ {
 		base := int64(8 * b)
 		dense := func(lo int) pbfgen.Group {
